@@ -1050,6 +1050,20 @@ def E1_kernel_shape(rep, flow: Flow, fq="f2_algebra.null_space"):
             rep.ok("E1", 1, nontrivial=(fq, "shape", txt), sample=f"{fq}: return {txt}")
 
 
+def K19b_no_reinterpretation(rep, flow: Flow, module="f2_algebra"):
+    """`a.view(<dtype>)` re-reads the BYTES of an array under another element type (an int64 matrix becomes eight int8
+    columns per entry); converting values is `astype`.  In the GF(2) routines, whose inputs come in every integer dtype,
+    a view with a dtype argument is therefore reported."""
+    rep.rule("K19b", "no GF(2) routine re-interprets the bytes of a matrix under another element type (`.view(dtype)`); conversions use astype", floor=0)
+    m = flow.prog.modules.get(module)
+    if m is None:
+        raise AnalysisError(f"module {module} vanished")
+    for f in m.all_funcs:
+        for c in [x for x in ast.walk(f.node) if isinstance(x, ast.Call) and isinstance(x.func, ast.Attribute) and x.func.attr == "view" and (x.args or x.keywords)]:
+            rep.finding("K19b", f"{f.fq}:view", f"{pyfacts.where(f, c)}: `{pyfacts.norm_stmt(c)[:80]}` re-reads the bytes of the array as another element type: for an input of a wider integer type (numpy's default int64) the result has several columns per entry and is not the matrix; `astype` converts the values")
+        rep.ok("K19b", 1, nontrivial=(f.fq,))
+
+
 def K19_mod2_updates(rep, flow: Flow, fqs=("f2_algebra.rref", "f2_algebra.rref_and_basis_change", "f2_algebra.rank", "f2_algebra.null_space")):
     """every arithmetic row update of an elimination stays inside {0, 1} for every integer dtype: the stored expression is
     `... % 2`, `... & 1` or an exclusive-or of rows.  A sum / difference / product stored without the reduction leaves 2 or
@@ -1379,6 +1393,16 @@ def _k11_primitives(rep, prog, gc):
     }
     g3 = _graph(ce, prog, 3, [(1, 1)])
     facts["add_edge(1,1) ignored"] = sum(sum(r) for r in g3.attrs["adjacency_matrix"].d) == 0
+    # vertices are compared by VALUE: `a is b` holds for two equal numpy integers (what argwhere / rng.integers hand over)
+    # only by accident of object identity, so a self-loop slips through (or an edge is dropped)
+    for mname in ("add_edge", "has_edge", "add_path", "add_star", "local_complementation"):
+        mm_ = gc.methods.get(mname)
+        if mm_ is None:
+            continue
+        for c in [x for x in ast.walk(mm_.node) if isinstance(x, ast.Compare) and any(isinstance(o, (ast.Is, ast.IsNot)) for o in x.ops)]:
+            sides = [c.left] + list(c.comparators)
+            if not any(isinstance(sd, ast.Constant) and (sd.value is None or isinstance(sd.value, bool) or sd.value is Ellipsis) for sd in sides):
+                rep.finding("K11", f"identity:{mname}", f"{pyfacts.where(mm_, c)}: `{ast.unparse(c)}` compares two vertex values by object identity: equal numpy integers are different objects, so the test fails for them although the vertices coincide (a self-loop is stored on the diagonal / an edge is missed); values are compared with ==")
     for k, v in facts.items():
         if v:
             rep.ok("K11", 1, nontrivial=k, sample=k)
